@@ -112,11 +112,13 @@ def r09_6(ctx):
         ep = F.origin.operand(b, s[2][2][names.index('endpoint')], bi, si)
         la = F.origin.operand(b, s[2][2][names.index('local_address')], bi, si)
         le, ll = leafs(ep), leafs(la)
-        if any(l.endswith('Repr::src_addr') for l in le if l.startswith('C:')) and 'F:wire::udp::Repr.src_port' in le:
+        extra_e = [l for l in le if (l.startswith('F:') and l != 'F:wire::udp::Repr.src_port') or (l.startswith('C:') and not l.endswith('Repr::src_addr'))]
+        if any(l.endswith('Repr::src_addr') for l in le if l.startswith('C:')) and 'F:wire::udp::Repr.src_port' in le and not extra_e:
             ctx.ok(('meta', 'endpoint'), sample=dict(endpoint='(ip_repr.src_addr(), repr.src_port)'))
         else:
             ctx.bad("udp::process|meta|endpoint", f"UdpMetadata.endpoint = {show(ep)[:80]} is not the packet's source address/port", body=b, bb=bi)
-        if any(l.endswith('Repr::dst_addr') for l in ll if l.startswith('C:')):
+        extra = [l for l in ll if l.startswith('F:') or (l.startswith('C:') and not l.endswith('Repr::dst_addr'))]
+        if any(l.endswith('Repr::dst_addr') for l in ll if l.startswith('C:')) and not extra:
             ctx.ok(('meta', 'local_address'))
         else:
             ctx.bad("udp::process|meta|local_address", f"UdpMetadata.local_address = {show(la)[:80]} is not the packet's destination address", body=b, bb=bi)
@@ -421,3 +423,71 @@ def _sig(n):
     ls = sorted(l for l in leafs(n) if l[:2] in ('A:', 'C:', 'F:'))
     return '+'.join(x.rsplit('::', 1)[-1].rsplit('.', 1)[-1] for x in ls)[:40] or show(n)[:20]
 
+
+
+WRITE_ONLY_USERS = ('::emit', '::emit_header', '::fill_checksum', 'call_once', 'call_mut', '::unwrap', '::payload_mut')
+
+
+@rule('R03.5', ['C03', 'C07'], floor=25, clause='a view created unchecked on the ingress path is either only written, or read solely through a Repr::parse that validates the length (check_len) before touching any field')
+def r03_5(ctx):
+    """icmp::Socket::accepts_* wraps the datagram quoted inside an ICMP error with new_unchecked and relies
+    on udp/tcp Repr::parse to reject short quotes.  Every such reader must start with check_len."""
+    F = ctx.F
+    views = wire_views(F)
+    root = ctx.method(IF, 'socket_ingress')
+    reach = F.reachable_from([root.key])
+    n = 0
+    readers = {}
+    for k in sorted(reach):
+        b = F.bodies.get(k)
+        if b is None or not (b.file or '').startswith(('src/iface/', 'src/socket/')):
+            continue
+        for x in b.calls():
+            nm = b.callee_name(x[1]) or ''
+            if not (nm.endswith('::new_unchecked') and nm.startswith('wire::')):
+                continue
+            n += 1
+            for y in b.calls():
+                un = b.callee_name(y[1]) or y[1].get('fn') or ''
+                if y[0] == x[0]:
+                    continue
+                hit = False
+                for a in y[2]:
+                    if isinstance(a, list) and a[0] in ('c', 'm'):
+                        o = F.origin.operand(b, a, y[0], len(b.blocks[y[0]]['s']))
+                        if ('C:' + nm) in leafs(o):
+                            hit = True
+                if not hit:
+                    continue
+                last = un.rsplit('::', 1)[-1]
+                if un.endswith(WRITE_ONLY_USERS) or last.startswith(('set_', 'clear_')):
+                    continue
+                if last == 'parse' and un.startswith('wire::'):
+                    readers.setdefault(un, []).append((k, y[0]))
+                    continue
+                fnm = k.rsplit('::', 1)[-1]
+                ctx.bad(f"{fnm}|unchecked-view-read|{last}", f"{k} reads an unchecked {nm.split('wire::')[-1].split('::new_')[0]} view through {un} "
+                        "(attacker-controlled bytes, no length validation)", body=b, bb=y[0])
+            ctx.ok(('unchecked-view', k, nm, x[0]))
+    ctx.need(n >= 25, f"new_unchecked sites on the ingress path (found {n})")
+    ctx.need(readers, "Repr::parse readers of unchecked views (icmp::Socket::accepts_*)")
+    for pk, users in sorted(readers.items()):
+        pb = F.bodies.get(pk)
+        if pb is None:
+            ctx.bad(f"{pk}|missing", f"{pk} not found", body=None)
+            continue
+        vadt = [l.get('adt') for l in pb.locals[1:pb.nargs + 1] if l.get('adt') in views]
+        acc = [x[0] for x in pb.calls() if any((pb.callee_name(x[1]) or '').startswith(v + '::') for v in vadt)
+               and not (pb.callee_name(x[1]) or '').endswith('::check_len')]
+        cl = [x for x in pb.calls() if (pb.callee_name(x[1]) or '').endswith('::check_len') and any((pb.callee_name(x[1]) or '').startswith(v + '::') for v in vadt)]
+        short = pk.split('wire::')[-1]
+        if not cl:
+            ctx.bad(f"{short}|no-check_len", f"{pk} is used on unchecked views ({users[0][0].rsplit('::', 1)[-1]}) but does not call check_len: "
+                    "a truncated quoted datagram panics the interface", body=pb)
+            continue
+        okp = lambda f: f[0] == 'is' and f[2] in ('Continue', 'Ok') and any(l.endswith('::check_len') for l in leafs(f[1]) if l.startswith('C:'))
+        bad = unguarded(F, pb, acc, okp)
+        if bad:
+            ctx.bad(f"{short}|accessor-before-check_len", f"{pk} touches a field before / without the check_len result being Ok", body=pb, bb=bad[0][0], path=bad[0][1])
+        else:
+            ctx.ok((short, 'check_len-first'), sample=dict(parser=short, used_by=users[0][0].rsplit('::', 1)[-1]))
